@@ -196,7 +196,21 @@ check('C03', 'exploration',
       'TLA+ state machine model checked by TLC and replayed on the code + TLA+ notation model evaluated by TLC on every real exchange',
       'DESIGN.md 4/C03')
 
-PENDING = ['C07', 'C17']
+check('C17', 'exploration',
+      'SpyneXmlAttack.tla part 1: protocol instances constructed in any order with default or relaxed parser settings and requests served '
+      'by any of them (TLC: Isolated, DefaultEndpointsSafe; the SharedSettings deviation violates them); all 102 scripts (construction order '
+      'x served instance x attack) are replayed in a real process and the request must succeed exactly when Resolves(the settings of ITS '
+      'instance) - positive controls for the detectors on relaxed instances, isolation for default ones. Part 2: Attacks = kind (external '
+      'general / parameter entities over file, http, ftp; external DTD subsets; XInclude; internal entities; entity chains of growing '
+      'fan-out and depth; quadratic blow-up; nesting 300 / 5000; 50000 attributes) x position of a valid request x {XmlDocument, Soap11, '
+      'Soap12} x {WSGI, ServerBase} x framing {plain, transport charset + encoding declaration, root part of multipart/related} (616). '
+      'The driver runs in a child process under strace: opens of the canary file / DTD and connects to a loopback listener are attributed '
+      'to the attack in flight, canary and replacement texts are searched in what user code received and in the response, wall time and '
+      'resident-set growth are measured; TLC (TraceXmlAttack) evaluates Fails(attack, observation).',
+      'TLA+ state machine (TLC) replayed on real instances + TLA+ attack family judged by TLC on syscall-level observations of the real server',
+      'DESIGN.md 4/C17')
+
+PENDING = ['C07']
 
 def main():
     import importlib
